@@ -1,4 +1,251 @@
-import GcmpyModel.Model.EECC
+import GcmpyModel.Lemmas.EECC
+/-!
+# C09 — EECC returns an edge-disjoint edge clique cover within the size bound
+
+Model: `GcmpyModel/Model/EECC.lean` (`maximalCliques`, `lmc`, `scoreZero`, `removeAll`, `rescore`, `init`,
+`step`, `run`, `candidates`) for `gcmpy/covers/eecc.py` (class `EECC`, repaired `limited_maximal_cliques`) and
+`remove_edge` / `has_edges` of `gcmpy/network/network.py`.  The random tie-break of the heuristic is modelled
+relationally: `step` accepts ANY member of the current non-zero-score list `C`, so every theorem below holds
+for every sequence of picks (in particular for the code's `choice` among `candidates`, `candidates_subset`).
+All proofs live in `GcmpyModel/Lemmas/EECC.lean` (`aux_*` and helper lemmas); this file only states the
+properties.
+
+Vocabulary (defined in `Lemmas/EECC.lean`):
+* `Simple es`        — the edge list has no repeated edge, no self loop and no reversed duplicate;
+* `NodesOf es nodes` — `nodes` is duplicate free and consists exactly of the end points (no isolated vertex);
+* `HasPair c a b`    — `a ≠ b` are both members of `c` (the clique `c` contains the pair `{a,b}`);
+* `EdgeIn g a b`     — `hasEdge g a b`: the undirected edge `{a,b}` is present in `g`;
+* `IsCliqueOf g c`   — `c` is strictly ascending and every two distinct members are joined in `g`;
+* `Inv edges nodes m0 s` — the loop invariant (structure with fields `ec_clique`, `ec_disjoint`, `cover`,
+                       `excl`, `sub`, `c_clique`, `c_ne`).
+-/
 namespace Gcmpy.EECC
-theorem placeholder_c09 : True := trivial
+open Gcmpy Gcmpy.Graph Gcmpy.Generate Gcmpy.MPCC
+
+variable {edges g : List Edge} {nodes : List Nat} {m0 : Nat}
+
+/-! ## 1. the building blocks -/
+
+/-- `maximalCliques` (the stand-in for `nx.find_cliques`) lists exactly the non-empty ascending cliques with
+vertices in `nodes` that no further vertex of `nodes` extends (isolated vertices are singleton cliques) -/
+theorem mem_maximalCliques_iff (hn : nodes.Nodup) (c : List Nat) :
+    c ∈ maximalCliques g nodes ↔
+      c ≠ [] ∧ IsCliqueOf g c ∧ (∀ v ∈ c, v ∈ nodes) ∧ ∀ v ∈ nodes, v ∉ c → ∃ y ∈ c, ¬ EdgeIn g v y :=
+  aux_mem_maximalCliques_iff hn
+
+/-- every edge between two nodes lies in a maximal clique -/
+theorem edge_in_some_maximalClique (hn : nodes.Nodup) {a b : Nat} (he : EdgeIn g a b) (hab : a ≠ b)
+    (ha : a ∈ nodes) (hb : b ∈ nodes) : ∃ d ∈ maximalCliques g nodes, HasPair d a b :=
+  edge_in_some_maximal hn he hab ha hb
+
+/-- `limited_maximal_cliques`: a maximal clique of at most `m0` vertices, or a sub-list with exactly `m0`
+vertices of a larger one -/
+theorem lmc_spec (c : List Nat) :
+    c ∈ lmc g nodes m0 ↔
+      ∃ d ∈ maximalCliques g nodes, (m0 < d.length ∧ c.Sublist d ∧ c.length = m0) ∨ (d.length ≤ m0 ∧ c = d) :=
+  mem_lmc_iff
+
+/-- every member of `lmc` is an ascending clique of `g` over `nodes` with at most `m0` vertices (and at least
+one if `1 ≤ m0`) -/
+theorem mem_lmc (hn : nodes.Nodup) {c : List Nat} (hc : c ∈ lmc g nodes m0) :
+    IsCliqueOf g c ∧ c.length ≤ m0 ∧ (1 ≤ m0 → 1 ≤ c.length) ∧ ∀ v ∈ c, v ∈ nodes :=
+  aux_mem_lmc hn hc
+
+/-- `lmc` returns no clique twice (the repaired de-duplication) -/
+theorem lmc_nodup (g : List Edge) (nodes : List Nat) (m0 : Nat) : (lmc g nodes m0).Nodup :=
+  aux_lmc_nodup g nodes m0
+
+/-- every edge lies in a member of `lmc` (in its maximal clique or, if that is larger than `m0`, in one of its
+`m0`-subsets) -/
+theorem edge_in_some_lmc (hn : nodes.Nodup) {a b : Nat} (he : EdgeIn g a b) (hab : a ≠ b) (ha : a ∈ nodes)
+    (hb : b ∈ nodes) (hm : 2 ≤ m0) : ∃ c ∈ lmc g nodes m0, HasPair c a b :=
+  aux_edge_in_some_lmc hn he hab ha hb hm
+
+/-- `remove_edges_from(combinations(c, 2))`: exactly the pairs of `c` disappear (missing ones are ignored) -/
+theorem removePairs_spec (hl : LoopFree g) (c : List Nat) (a b : Nat) :
+    EdgeIn (removePairs g c) a b ↔ EdgeIn g a b ∧ ¬ HasPair c a b :=
+  edgeIn_removePairs hl
+
+theorem removeAll_spec (hl : LoopFree g) (EC : List (List Nat)) (a b : Nat) :
+    EdgeIn (removeAll g EC) a b ↔ EdgeIn g a b ∧ ∀ c ∈ EC, ¬ HasPair c a b :=
+  edgeIn_removeAll hl
+
+/-- a score-0 member of a scored list `C ⊆ lmc g nodes m0` (the whole list, or the one filtered to order > 1)
+shares no pair with any OTHER member — also when its score is 0 only because its order is 2 -/
+theorem scoreZero_disjoint (hn : nodes.Nodup) {C : List (List Nat)} (hC : ∀ c ∈ C, c ∈ lmc g nodes m0)
+    {c d : List Nat} (hc : c ∈ C) (hd : d ∈ C) (hne : c ≠ d) (hz : scoreZero C c = true) :
+    ∀ a b, HasPair c a b → ¬ HasPair d a b :=
+  aux_scoreZero_disjoint hn hC hc hd hne hz
+
+/-! ## 2. the loop invariant -/
+
+/-- the state after the first scoring round satisfies the invariant -/
+theorem inv_init (hs : Simple edges) (hn : NodesOf edges nodes) (hm : 2 ≤ m0) :
+    Inv edges nodes m0 (init edges nodes m0) :=
+  aux_inv_init hs hn hm
+
+/-- every allowed step preserves the invariant, whatever member of `C` is picked -/
+theorem inv_step (hs : Simple edges) (hn : NodesOf edges nodes) (hm : 2 ≤ m0) {s s' : St} {pick : List Nat}
+    (hi : Inv edges nodes m0 s) (hstep : step nodes m0 s pick = some s') : Inv edges nodes m0 s' :=
+  aux_inv_step hs hn hm hi hstep
+
+/-- the invariant holds at the end of every run -/
+theorem inv_final (hs : Simple edges) (hn : NodesOf edges nodes) (hm : 2 ≤ m0) {picks : List (List Nat)}
+    {s : St} (hr : run nodes m0 (init edges nodes m0) picks = some s) : Inv edges nodes m0 s :=
+  inv_run hs hn hm picks _ s (aux_inv_init hs hn hm) hr
+
+/-! ## 3. the properties of the returned cover (every pick sequence) -/
+
+/-- every member of the cover is a clique of the input graph with `2 ≤ order ≤ m0` -/
+theorem cover_cliques (hs : Simple edges) (hn : NodesOf edges nodes) (hm : 2 ≤ m0)
+    {picks : List (List Nat)} {s : St} (hr : run nodes m0 (init edges nodes m0) picks = some s) :
+    ∀ c ∈ s.EC, IsCliqueOf edges c ∧ 2 ≤ c.length ∧ c.length ≤ m0 :=
+  (inv_final hs hn hm hr).ec_clique
+
+/-- at exit `has_edges()` is false -/
+theorem working_graph_empty {picks : List (List Nat)} {s0 s : St} (hr : run nodes m0 s0 picks = some s) :
+    s.g = [] :=
+  run_g_empty picks s0 s hr
+
+/-- every input edge lies in a member of the cover … -/
+theorem cover_exact (hs : Simple edges) (hn : NodesOf edges nodes) (hm : 2 ≤ m0)
+    {picks : List (List Nat)} {s : St} (hr : run nodes m0 (init edges nodes m0) picks = some s) :
+    ∀ e ∈ edges, ∃ c ∈ s.EC, HasPair c e.1 e.2 := by
+  intro e he
+  rcases ((inv_final hs hn hm hr).cover e.1 e.2).1 (edgeIn_of_mem he) with h | h
+  · rw [working_graph_empty hr] at h
+    exact absurd h (not_edgeIn_nil _ _)
+  · exact h
+
+/-- … the members are pairwise edge-disjoint (as positions of the list) … -/
+theorem cover_disjoint (hs : Simple edges) (hn : NodesOf edges nodes) (hm : 2 ≤ m0)
+    {picks : List (List Nat)} {s : St} (hr : run nodes m0 (init edges nodes m0) picks = some s) :
+    s.EC.Pairwise (fun c d => ∀ a b, HasPair c a b → ¬ HasPair d a b) :=
+  (inv_final hs hn hm hr).ec_disjoint
+
+/-- … so exactly one member of the cover contains a given input edge (counting form) … -/
+theorem cover_exact_count (hs : Simple edges) (hn : NodesOf edges nodes) (hm : 2 ≤ m0)
+    {picks : List (List Nat)} {s : St} (hr : run nodes m0 (init edges nodes m0) picks = some s) :
+    ∀ e ∈ edges, (s.EC.filter (fun c => e.1 ∈ c ∧ e.2 ∈ c)).length = 1 := by
+  intro e he
+  have hne : e.1 ≠ e.2 := hs.loopFree e he
+  obtain ⟨c, hc, hp⟩ := cover_exact hs hn hm hr e he
+  have h1 : 1 ≤ (s.EC.filter (fun c => e.1 ∈ c ∧ e.2 ∈ c)).length :=
+    List.length_pos_of_mem (List.mem_filter.2 ⟨hc, by simpa using ⟨hp.1, hp.2.1⟩⟩)
+  have h2 := filter_length_le_one (p := fun c => decide (e.1 ∈ c ∧ e.2 ∈ c)) (cover_disjoint hs hn hm hr)
+    (fun x y hx hy hR => by
+      simp only [decide_eq_true_eq] at hx hy
+      exact hR e.1 e.2 ⟨hx.1, hx.2, hne⟩ ⟨hy.1, hy.2, hne⟩)
+  omega
+
+/-- … (element form: two members containing the same pair are equal, and no clique is listed twice) … -/
+theorem cover_unique (hs : Simple edges) (hn : NodesOf edges nodes) (hm : 2 ≤ m0)
+    {picks : List (List Nat)} {s : St} (hr : run nodes m0 (init edges nodes m0) picks = some s)
+    {c d : List Nat} (hc : c ∈ s.EC) (hd : d ∈ s.EC) {a b : Nat} (hpc : HasPair c a b) (hpd : HasPair d a b) :
+    c = d := by
+  by_contra hne
+  exact pairwise_forall_ne (R := fun c d => ∀ a b, HasPair c a b → ¬ HasPair d a b)
+    (fun x y h a b hy hx => h a b hx hy) (cover_disjoint hs hn hm hr) c hc d hd hne a b hpc hpd
+
+theorem cover_nodup (hs : Simple edges) (hn : NodesOf edges nodes) (hm : 2 ≤ m0)
+    {picks : List (List Nat)} {s : St} (hr : run nodes m0 (init edges nodes m0) picks = some s) :
+    s.EC.Nodup := by
+  refine (cover_disjoint hs hn hm hr).imp_of_mem ?_
+  intro c d hc _ hR hcd
+  have hcl := cover_cliques hs hn hm hr c hc
+  obtain ⟨a, b, hp⟩ := exists_hasPair_of_two_le hcl.1.1 hcl.2.1
+  exact hR a b hp (hcd ▸ hp)
+
+/-- … and conversely every pair of every member is an input edge (nothing but input edges is covered) -/
+theorem cover_pairs_are_edges (hs : Simple edges) (hn : NodesOf edges nodes) (hm : 2 ≤ m0)
+    {picks : List (List Nat)} {s : St} (hr : run nodes m0 (init edges nodes m0) picks = some s) :
+    ∀ c ∈ s.EC, ∀ a b, HasPair c a b → EdgeIn edges a b :=
+  fun c hc _ _ hp => (cover_cliques hs hn hm hr c hc).1.edgeIn hp
+
+/-- while edges remain, `C` is non-empty (`min(r)` never sees an empty list) and EVERY allowed pick yields a
+step that removes at least one edge -/
+theorem progress {s : St} (hi : Inv edges nodes m0 s) (hne : s.g ≠ []) :
+    s.C ≠ [] ∧ ∀ pick ∈ s.C, ∃ s', step nodes m0 s pick = some s' ∧ s'.g.length < s.g.length :=
+  aux_progress hi hne
+
+/-- hence `|E(g)|` iterations of fuel suffice: some pick sequence of at most that length finishes the loop -/
+theorem run_terminates (hs : Simple edges) (hn : NodesOf edges nodes) (hm : 2 ≤ m0) {s : St}
+    (hi : Inv edges nodes m0 s) :
+    ∃ picks s', run nodes m0 s picks = some s' ∧ picks.length ≤ s.g.length :=
+  aux_run_terminates hs hn hm hi
+
+/-- in particular the heuristic has a complete run on every admissible input, of at most `|E|` iterations -/
+theorem run_exists (hs : Simple edges) (hn : NodesOf edges nodes) (hm : 2 ≤ m0) :
+    ∃ picks s, run nodes m0 (init edges nodes m0) picks = some s ∧ picks.length ≤ edges.length := by
+  obtain ⟨picks, s, hr, hl⟩ := aux_run_terminates hs hn hm (aux_inv_init hs hn hm)
+  exact ⟨picks, s, hr, Nat.le_trans hl (aux_inv_init hs hn hm).sub.length_le⟩
+
+/-- a maximal clique of the input with at most `m0` vertices that shares no edge with any other maximal clique
+is a member of the final cover (it has score 0 in `init`, and `EC` only grows); the hypothesis
+`2 ≤ c.length` of the design statement is not needed -/
+theorem isolated_maximal_intact (hn : NodesOf edges nodes) {picks : List (List Nat)} {s : St}
+    (hr : run nodes m0 (init edges nodes m0) picks = some s) {c : List Nat}
+    (hc : c ∈ maximalCliques edges nodes) (_h2 : 2 ≤ c.length) (hle : c.length ≤ m0)
+    (hiso : ∀ d ∈ maximalCliques edges nodes, d ≠ c → ∀ a b, HasPair c a b → ¬ HasPair d a b) :
+    c ∈ s.EC :=
+  run_EC_mono picks _ s hr c (isolated_maximal_in_init hn.1 hc hle hiso)
+
+/-- the heuristic's own candidate set (largest order among the minimum-score cliques, exact scores) is
+allowed by the step relation -/
+theorem candidates_subset (s : St) : ∀ c ∈ candidates s, c ∈ s.C :=
+  aux_candidates_subset s
+
+/-! ## 4. examples -/
+
+/-- triangle `{1,2,3}` with the pendant edge `{3,4}` -/
+def triPendant : List Edge := [(1, 2), (1, 3), (2, 3), (3, 4)]
+/-- `K4` -/
+def k4 : List Edge := [(1, 2), (1, 3), (1, 4), (2, 3), (2, 4), (3, 4)]
+/-- two triangles sharing the edge `{2,3}` -/
+def twoTri : List Edge := [(1, 2), (1, 3), (2, 3), (2, 4), (3, 4)]
+
+example : Simple triPendant := by decide +kernel
+example : Simple k4 := by decide +kernel
+example : NodesOf triPendant [1, 2, 3, 4] :=
+  ⟨by decide +kernel, fun v => by simp [triPendant]; omega⟩
+example : NodesOf k4 [1, 2, 3, 4] :=
+  ⟨by decide +kernel, fun v => by simp [k4]; omega⟩
+example : ¬ Simple [(1, 2), (2, 1)] := by decide +kernel
+
+example : maximalCliques triPendant [1, 2, 3, 4] = [[3, 4], [1, 2, 3]] := by decide +kernel
+example : lmc triPendant [1, 2, 3, 4] 3 = [[1, 2, 3], [3, 4]] := by decide +kernel
+example : lmc k4 [1, 2, 3, 4] 3 = [[1, 2, 3], [1, 2, 4], [1, 3, 4], [2, 3, 4]] := by decide +kernel
+
+/-- triangle + pendant edge, `m0 = 3`: both maximal cliques have score 0, no iteration is needed -/
+example : (run [1, 2, 3, 4] 3 (init triPendant [1, 2, 3, 4] 3) []).map (fun s => (s.g, s.EC, s.C)) =
+    some ([], [[1, 2, 3], [3, 4]], []) := by decide +kernel
+/-- the same graph with `m0 = 2`: the triangle is split into its three edges -/
+example : (run [1, 2, 3, 4] 2 (init triPendant [1, 2, 3, 4] 2) []).map (·.EC) =
+    some [[1, 2], [1, 3], [2, 3], [3, 4]] := by decide +kernel
+
+/-- `K4`, `m0 = 3`: all four triangles overlap, nothing has score 0 and all four are candidates -/
+example : (init k4 [1, 2, 3, 4] 3).g = k4 ∧ (init k4 [1, 2, 3, 4] 3).EC = [] ∧
+    (init k4 [1, 2, 3, 4] 3).C = [[1, 2, 3], [1, 2, 4], [1, 3, 4], [2, 3, 4]] ∧
+    candidates (init k4 [1, 2, 3, 4] 3) = [[1, 2, 3], [1, 2, 4], [1, 3, 4], [2, 3, 4]] := by decide +kernel
+/-- two different picks give two different (both exact) covers -/
+example : (run [1, 2, 3, 4] 3 (init k4 [1, 2, 3, 4] 3) [[1, 2, 3]]).map (fun s => (s.g, s.EC)) =
+    some ([], [[1, 2, 3], [1, 4], [2, 4], [3, 4]]) := by decide +kernel
+example : (run [1, 2, 3, 4] 3 (init k4 [1, 2, 3, 4] 3) [[2, 3, 4]]).map (fun s => (s.g, s.EC)) =
+    some ([], [[2, 3, 4], [1, 2], [1, 3], [1, 4]]) := by decide +kernel
+/-- a pick outside `C`, too few picks, and left-over picks are rejected -/
+example : (run [1, 2, 3, 4] 3 (init k4 [1, 2, 3, 4] 3) [[1, 2]]).isNone = true := by decide +kernel
+example : (run [1, 2, 3, 4] 3 (init k4 [1, 2, 3, 4] 3) []).isNone = true := by decide +kernel
+example : (run [1, 2, 3, 4] 3 (init k4 [1, 2, 3, 4] 3) [[1, 2, 3], [1, 4]]).isNone = true := by
+  decide +kernel
+
+/-- two triangles sharing an edge: picking one leaves the other's two free edges -/
+example : (run [1, 2, 3, 4] 3 (init twoTri [1, 2, 3, 4] 3) [[1, 2, 3]]).map (·.EC) =
+    some [[1, 2, 3], [2, 4], [3, 4]] := by decide +kernel
+
+/-- why the hypotheses are there: with `m0 = 0` the empty list is a member of `lmc` (so `1 ≤ c.length` in
+`mem_lmc` needs `1 ≤ m0`), and an isolated vertex (excluded by `NodesOf`) puts a singleton into the cover in
+`init` (later rounds drop singletons) -/
+example : lmc [(1, 2)] [1, 2] 0 = [[]] := by decide +kernel
+example : (init [(1, 2)] [1, 2, 3] 2).EC = [[1, 2], [3]] := by decide +kernel
+
 end Gcmpy.EECC
